@@ -10,6 +10,7 @@ FLAVOURS = {
     "static": [],
     "dyn": ["-dyn"],
     "faults": ["-faults"],
+    "dagrun": ["-dagrun"],
 }
 
 def _tool_fingerprint():
@@ -50,6 +51,10 @@ def run(ctx, flavour="static"):
         shards, hist, maxn, steps = 16, 4, 6, 200
     if flavour == "dyn":
         steps, maxn = steps * 2, min(maxn, 5)
+    if flavour == "dagrun":
+        hist, steps = max(1, hist // 2), (steps * 3) // 4
+        if tier == "thorough":
+            FLAVOURS["dagrun"] = ["-dagrun", "-thorough"]
     sim_args = ["-hist", hist, "-maxn", maxn, "-steps", steps] + FLAVOURS[flavour]
     jobs = [(i, seed * 1000 + i, sim_args, os.path.join(cdir, "shard%02d.txt" % i)) for i in range(shards)]
     with ThreadPoolExecutor(max_workers=16) as ex:
